@@ -30,7 +30,7 @@ REQUIRED_REACH = ['format:html', 'format:json', 'format:xml', 'format:text', 'pl
                   'accept:malformed', 'accept:exact-distinct-q', 'accept:wildcard-q', 'debug-500-parsed', 'debug-404-parsed',
                   'canary-as-text:detail', 'canary-as-text:message', 'canary-as-text:error_type', 'canary-as-text:exc_value',
                   'canary-as-text:path', 'canary-as-text:header', 'canary-as-text:query', 'canary-as-text:local',
-                  'status-table-checked', 'instance-code-override', 'href-error-type', 'html-structure-checked', 'content-length-compared', 'handler-given-as-object', 'format-query-on-error', 'failing-request-with-upload']
+                  'status-table-checked', 'instance-code-override', 'href-error-type', 'html-structure-checked', 'content-length-compared', 'handler-given-as-object', 'format-query-on-error', 'failing-request-with-upload', 'field-with-lone-surrogate']
 NSHARDS = 16
 
 STATUS_TABLE = {
@@ -342,7 +342,13 @@ def app_for(kind, how='flag'):
             from clastic import errors
             from clastic import Application
             h = errors.ContextualErrorHandler() if kind == 'debug' else errors.ErrorHandler()
-            if how == 'instance':
+            if how == 'below-middlewares':
+                # the same application below the built-in middlewares that look at responses (compression, client caching):
+                # errors - raised or returned - come out as they do without them
+                from clastic.middleware import GzipMiddleware
+                from clastic.middleware.client_cache import HTTPCacheMiddleware
+                _apps[key] = Application(scenario_routes(), middlewares=[GzipMiddleware(), HTTPCacheMiddleware()], debug=(kind == 'debug'))
+            elif how == 'instance':
                 _apps[key] = Application(scenario_routes(), error_handler=h)
             else:
                 _apps[key] = Application(scenario_routes())
@@ -371,12 +377,15 @@ def gen_case(rng, n):
     kind = rng.pick(['class', 'class', 'class', 'class', '404', 'uncaught', 'uncaught', '405'])
     case = {'kind': kind, 'handler': rng.pick(['default', 'debug']), 'accept': rng.pick(ACCEPTS), 'n': n}
     if rng.chance(0.3):
-        case['handler_how'] = rng.pick(['instance', 'set-later'])
+        case['handler_how'] = rng.pick(['instance', 'set-later', 'below-middlewares', 'below-middlewares'])
+        if case['handler_how'] == 'below-middlewares':
+            case['mw_headers'] = rng.pick([{'Accept-Encoding': 'gzip'}, {'Accept-Encoding': 'gzip', 'If-None-Match': '*'}, {'If-None-Match': '"abc"'}, {}])
     if rng.chance(0.2):
         # a query parameter that means something to the *renderers* of successful answers: error formats follow Accept
         case['fmtq'] = rng.pick(['format=json', 'format=html', 'format=xml', 'format=text', 'format=', 'format=yaml', 'format=json&format=html'])
     if kind == 'uncaught' and rng.chance(0.2):
         case['upload'] = True     # the failing request carries an uploaded file
+
     if rng.chance(0.45):
         case['accept'] = rng.pick(['text/html', 'application/json', 'application/xml', 'text/html', '*/*'])
     if kind == 'class':
@@ -408,6 +417,14 @@ def gen_case(rng, n):
         case['via'] = rng.pick(['/boom', '/item/%s/', '/boom-rendered'])
         case['frame'] = rng.pick([None, None, 'lambda', 'genexpr', 'nested-lambda'])
         case['seg'] = payload(rng, n + 4000000).replace('/', '_').replace('\n', ' ').replace('\t', ' ')
+    if kind in ('class', 'uncaught') and rng.chance(0.06):
+        # a lone surrogate in a field (a file name from os.fsdecode, text cut in the middle of a character pair)
+        case['surrogate'] = True
+        sur = rng.pick(['caf\udce9.txt', 'token \ud83d cut', '\udc00', 'x\udfff\ud800y'])
+        if kind == 'class':
+            case[rng.pick(['detail', 'message', 'error_type'])] = sur
+        else:
+            case['msg'] = sur
     return case
 
 
@@ -418,7 +435,7 @@ def send(case):
     from urllib.parse import quote
     app = app_for(case['handler'], case.get('handler_how') or 'flag')
     fq = case.get('fmtq') or ''
-    headers = {}
+    headers = dict(case.get('mw_headers') or {})
     if case.get('accept') is not None:
         headers['Accept'] = case['accept']
     kind = case['kind']
@@ -518,9 +535,28 @@ def judge(sh, case, record=True):
         bad('negotiation', verdict)
         return
     try:
-        body = ex.body.decode('utf8')
+        raw_body = ex.body
+        if (ex.header('Content-Encoding') or '').lower() == 'gzip':
+            import gzip as _gzip
+            try:
+                raw_body = _gzip.decompress(raw_body)
+                sh.hit('error-body-compressed')
+            except Exception as e:
+                bad('body-not-what-its-content-encoding-says', 'Content-Encoding: gzip, but the body does not decompress (%s): %r' % (e, ex.body[:60]))
+                return
+        body = raw_body.decode('utf8')
     except UnicodeError:
         bad('body-not-utf8', 'body %r' % ex.body[:80])
+        return
+    if case.get('surrogate'):
+        # text with a lone surrogate cannot be shown verbatim in any encoding: status, negotiated format, a decodable body and
+        # (for JSON) a parsable one are what is asked of the answer - how the character is spelled is not
+        sh.hit('field-with-lone-surrogate')
+        if fmt == 'json':
+            try:
+                json.loads(body)
+            except ValueError as e:
+                bad('json-unparsable', '%s: %r' % (e, body[:200]))
         return
     # ---- body agrees with the content type; fields displayed; nothing injected -----------------------------
     fields = {}
